@@ -37,7 +37,7 @@ REQUIRED_THEOREMS = ["window_exact", "total_exact", "trunc_flag_iff", "listing_e
                      "interleaved_gets_reassemble", "interleaved_gets_reassemble_of_keyed", "keyed_of_small",
                      "live_gets_current_listing", "get_after_change", "attr_added_is_listed",
                      "blocks_of_one_etag_are_one_listing", "block_under_etag_is_block_of_block0_listing",
-                     "restart_gets_current_listing", "etags_never_reused", "same_key_same_listing"]
+                     "restart_gets_current_listing", "etags_never_reused", "same_key_same_listing", "etag_blocks_reassemble"]
 RULE = ("resource tables built by 0..12 coap_add_resource/coap_delete_resource calls (paths from a small pool so that "
         "re-registration happens, 0..4 attributes with/without value, quoted/unquoted/empty/one-byte/malformed-quote values, "
         "observable / OSCORE-only markers, library-copied or caller-owned exact-size strings) x filters (none, NULL, href/rt/if/rel/"
